@@ -17,12 +17,15 @@ import (
 type Expr interface{}
 
 type (
-	EIdent  struct{ Name string }
-	EInt    struct{ V string }
-	EStr    struct{ V string }
-	EBool   struct{ V bool }
-	ENil    struct{}
-	EUnary  struct{ Op string; X Expr }
+	EIdent struct{ Name string }
+	EInt   struct{ V string }
+	EStr   struct{ V string }
+	EBool  struct{ V bool }
+	ENil   struct{}
+	EUnary struct {
+		Op string
+		X  Expr
+	}
 	EBinary struct {
 		Op   string
 		X, Y Expr
@@ -33,15 +36,18 @@ type (
 		Body   Expr
 		Pats   [][]Expr
 	}
-	ESel    struct{ X Expr; Name string }
-	EIndex  struct{ X, I Expr }
-	ESlice  struct{ X, Lo, Hi Expr }
-	ECall   struct {
+	ESel struct {
+		X    Expr
+		Name string
+	}
+	EIndex struct{ X, I Expr }
+	ESlice struct{ X, Lo, Hi Expr }
+	ECall  struct {
 		Fn   string
 		Args []Expr
 	}
-	EOld    struct{ X Expr }
-	EIs     struct {
+	EOld struct{ X Expr }
+	EIs  struct {
 		X   Expr
 		Typ string
 	}
@@ -85,31 +91,32 @@ type CallGhost struct {
 }
 
 type FuncContract struct {
-	Name      string
-	Pkg       string
-	Trusted   bool
-	Requires  []Clause
-	Ensures   []Clause
-	Assigns   []string // type strings; "nothing", "all"
-	HasAssign bool
-	Ghosts    []GhostDecl
-	GhostPar  []GhostDecl // ghost parameters (universally quantified inputs)
-	Loops     map[int]*LoopContract
-	CallGhost []CallGhost
-	RetGhost  []GhostUpdate
+	Name       string
+	Pkg        string
+	Trusted    bool
+	Requires   []Clause
+	Ensures    []Clause
+	Assigns    []string // type strings; "nothing", "all"
+	HasAssign  bool
+	Ghosts     []GhostDecl
+	GhostPar   []GhostDecl // ghost parameters (universally quantified inputs)
+	Loops      map[int]*LoopContract
+	CallGhost  []CallGhost
+	RetGhost   []GhostUpdate
 	EntryGhost []GhostUpdate
-	Pure      bool
-	MayPanic  bool
-	Line      int
-	File      string
-	Notes     []string
+	Pure       bool
+	MayPanic   bool
+	Line       int
+	File       string
+	Notes      []string
 }
 
 type PredDef struct {
-	Name   string
-	Params []QVar
-	Body   Expr
-	Text   string
+	Abstract bool
+	Name     string
+	Params   []QVar
+	Body     Expr
+	Text     string
 }
 
 type LemmaDef struct {
@@ -171,7 +178,7 @@ func parseContractFile(path, pkg string) (*ContractFile, error) {
 	// join continuation lines: a line that does not start with a keyword continues the previous one
 	kw := map[string]bool{"func": true, "requires": true, "ensures": true, "assigns": true, "ghost": true, "ghostparam": true,
 		"loop": true, "call": true, "trusted": true, "pred": true, "lemma": true, "pure": true, "maypanic": true,
-		"guarded_by": true, "return": true, "note": true, "entry": true}
+		"guarded_by": true, "return": true, "note": true, "entry": true, "upred": true}
 	var joined []rawLine
 	for _, r := range raws {
 		first := r.text
@@ -338,6 +345,25 @@ func parseContractFile(path, pkg string) (*ContractFile, error) {
 				return nil, fail(err)
 			}
 			cur.RetGhost = append(cur.RetGhost, u)
+		case "upred":
+			// upred name(x T, y U): an uninterpreted (abstract) predicate
+			i := strings.Index(rest, "(")
+			j := matchParen(rest, i)
+			if i < 0 || j < 0 {
+				return nil, fail(fmt.Errorf("bad upred header"))
+			}
+			name := strings.TrimSpace(rest[:i])
+			var params []QVar
+			for _, p := range splitTop(rest[i+1:j], ',') {
+				p = strings.TrimSpace(p)
+				if p == "" {
+					continue
+				}
+				n, t := splitWord(p)
+				params = append(params, QVar{n, strings.TrimSpace(t)})
+			}
+			cf.Preds[name] = &PredDef{Name: name, Params: params, Abstract: true, Text: "abstract"}
+			cur = nil
 		case "pred":
 			// pred name(x T, y U) = expr
 			i := strings.Index(rest, "(")
